@@ -62,6 +62,8 @@ type retState struct {
 }
 
 type Engine struct {
+	indexLemma      bool // stack.index: found => 1 <= position < len (proved by ruleIndexLemma)
+	indexLemmaTried bool
 	lockHavoc bool // concurrent mode: acquiring a lock invalidates everything known about shared memory
 	p   *Program
 	eff *Effects
@@ -1813,6 +1815,24 @@ func (fa *FnAnalysis) addTermFact(st *State, kind string, t *Term, val bool) {
 			if t.B.K == "C" && t.B.S == "nil" {
 				fa.addTermFact(st, aNN, t.A, !val)
 				return
+			}
+		}
+	}
+	if kind == aTR && t.K == "B" && t.S == "==" {
+		// s == "" is len(s) == 0: record the length form as well, so that both spellings of the test agree
+		for _, pr := range [][2]*Term{{t.A, t.B}, {t.B, t.A}} {
+			if pr[0].K == "C" && pr[0].Const != nil && pr[0].Const.Kind() == constant.String && constant.StringVal(pr[0].Const) == "" && pr[1].K != "C" {
+				lz := fa.e.tt.mk(Term{K: "B", S: "==", A: fa.e.tt.mk(Term{K: "C", S: "0", Const: constant.MakeInt64(0)}), B: fa.e.tt.mk(Term{K: "LEN", A: pr[1]})})
+				if lz.K == "B" {
+					if v, ok := fa.knownTerm(st, aTR, lz); ok {
+						if v != val {
+							st.dead = true
+							return
+						}
+					} else {
+						st.add(aTR, lz, val)
+					}
+				}
 			}
 		}
 	}
